@@ -181,7 +181,7 @@ Qed.
 Lemma inv2_init n : (forall v, getz anh0 v <> 0 -> 0 <= v < Z.of_nat n) ->
   Inv2 (fun _ => False) (init2 n nh anh0).
 Proof.
-  intros Hrange. unfold init2. constructor; cbn [v_anh v_todo v_cur].
+  intros Hrange. unfold init2. rewrite frev_rev. constructor; cbn [v_anh v_todo v_cur].
   - intros v Nv Av. destruct (Hanh_sound v _ eq_refl Av) as [Ok [Uk Ek]].
     split; [auto|]. split; [auto|]. exists v. split; [constructor|auto].
   - auto.
